@@ -21,9 +21,11 @@ type C13Step struct {
 }
 
 type C13Params struct {
-	Ver   int       `json:"ver"` // 12 | 13 | 1213 (dual-stack server)
-	Store bool      `json:"store"`
-	Steps []C13Step `json:"steps"`
+	Ver      int       `json:"ver"` // 12 | 13 | 1213 (dual-stack server)
+	Store    bool      `json:"store"`
+	NoBack   bool      `json:"nobackoff"`
+	FlightMs int       `json:"flight_ms"`
+	Steps    []C13Step `json:"steps"`
 }
 
 var c13Alters = []string{"random", "sessionid", "suites", "compression", "ext-add", "ext-drop", "ext-change", "version"}
@@ -58,11 +60,14 @@ func c13Gen(r *rand.Rand, tier string, idx int) any {
 		rep := []int{1, 1, 3, 5}[k/len(kinds)]
 		gap := []int{0, 600000, 20, 1500}[k/len(kinds)]
 		p.Steps = []C13Step{{Kind: "first", Repeat: 1}, {Kind: kind, Repeat: rep, GapMs: gap}, {Kind: "echo", Repeat: 1, GapMs: 10}}
+		p.NoBack = k%2 == 1
 
 		return p
 	}
 	p.Ver = vers[r.IntN(3)]
 	p.Store = r.IntN(4) == 0
+	p.NoBack = r.IntN(3) == 0
+	p.FlightMs = []int{0, 50, 300}[r.IntN(3)]
 	n := 1 + r.IntN(6)
 	p.Steps = append(p.Steps, C13Step{Kind: "first", Repeat: 1 + r.IntN(3)})
 	for i := 0; i < n; i++ {
@@ -262,6 +267,7 @@ func c13Run(rc *RunCtx, params any) {
 	}
 	cspec.Curves, sspec.Curves = []uint16{0x001d, 0x0017}, []uint16{0x001d, 0x0017}
 	sspec.SkipHelloVerify = false
+	sspec.NoBackoff, sspec.FlightMs = p.NoBack, p.FlightMs
 	cspec.ALPN, sspec.ALPN = []string{"a", "b"}, []string{"a", "b"}
 	env := &Env{Stores: map[string]dtls.SessionStore{}}
 	if p.Store {
